@@ -54,8 +54,11 @@ def populate(rng, L, steps, n=None, names=None, allow_invalid=False, now=None, o
     made = []
     used = set()
     pool = names or G.pick_names(rng, max(3, n), allow_invalid=allow_invalid)
+    # the volume mounted at / has top-directory trash dirs too (/.Trash-$uid): entries get there when the home trash was
+    # unusable once, through sudo without -H, --trash-dir ...; every reader scans them like those of any other volume
+    root_alt = ('/.Trash-%d' % L['uid'], '/', True)
     for i in range(n):
-        tdir, top, usable = rng.choice(locs)
+        tdir, top, usable = rng.choice(locs) if rng.random() >= 0.12 else root_alt
         base = rng.choice(pool)
         # the trash name: base name, possibly with a collision suffix
         short = base
@@ -71,11 +74,20 @@ def populate(rng, L, steps, n=None, names=None, allow_invalid=False, now=None, o
             odir = rng.choice([L['home'] + '/w', L['home'], L['home'] + '/w/sub/deeper', '/tmp'])
             loc = odir + '/' + base
             pv = pct(loc)
+        elif top == '/':
+            odir = rng.choice(['/srv', '/opt/data', '/tmp', '/srv/deep/er'])
+            loc = odir + '/' + base
+            pv = pct(loc[1:]) if rng.random() < 0.85 else pct(loc)
         else:
             odir = rng.choice([L['work'].get(top, top + '/docs'), L['work'].get(top, top + '/docs') + '/sub', top, top + '/tmp', top + '/archive/old', top + '/Photos',
                                top + '/home', top + '/=eq', top + '/Path=x', top + '/ lead'])
             loc = odir + '/' + base
             pv = pct(loc[len(top) + 1:]) if rng.random() < 0.85 else pct(loc)
+        if rng.random() < 0.03 and top != '/':
+            # a deep location of multi-byte names: the escaped Path value is three times as long as the path (5-12 KB)
+            deep = '/'.join(rng.choice(['é', 'ж', '日']) * rng.choice([60, 80]) + str(k_) for k_ in range(rng.randint(9, 13)))
+            loc = odir + '/' + deep + '/' + base
+            pv = pct(loc) if (top is None or pv.startswith('/')) else pct(loc[len(top) + 1:])
         d = date_fn(rng) if date_fn else rand_date(rng, now)
         G.add_trashed(steps, tdir, nm, pv, iso(d), rng.choice(kinds), tag=str(i))
         made.append((tdir, nm, loc, iso(d)))
